@@ -991,6 +991,12 @@ fn main() {
         // fixed in 72650b2, must stay silent: a dohpath with a line feed, blank and non-ASCII UTF-8; an unknown key whose value is `)`
         Case { owner: vec![0], class: 1, ttl: 0, rt: 64, rdata: vec![0, 1, 0, 0, 7, 0, 5, 0x0a, 0x2d, 0x20, 0xc3, 0xa9] },
         Case { owner: vec![0], class: 1, ttl: 0, rt: 65, rdata: vec![0, 1, 0, 0x61, 0, 0, 1, 0x29] },
+        // one reproducer per known class
+        Case { owner: vec![0], class: 1, ttl: 0, rt: 50, rdata: vec![1, 0, 0, 10, 0, 0, 0, 1, 0x40] },          // empty_field_NSEC3: no next-owner hash
+        Case { owner: vec![0], class: 1, ttl: 0, rt: 257, rdata: vec![0, 0, b'x'] },                              // empty_field_CAA: empty tag
+        Case { owner: vec![0], class: 1, ttl: 0, rt: 64, rdata: vec![0, 1, 0, 0, 2, 0, 0] },                      // svcb_params_nodefaultalpn
+        Case { owner: vec![0], class: 1, ttl: 0, rt: 64, rdata: vec![0, 1, 0, 0, 1, 0, 4, 3, b'a', b' ', b'b'] }, // svcb_params_value_escaping: alpn id "a b"
+        Case { owner: vec![0], class: 1, ttl: 0, rt: 64, rdata: vec![0, 0x61, 0, 0, 7, 0, 1, 0xf7] },             // svcb_params_dohpath_not_utf8
         Case { owner: b"\x07$ORIGIN\x01$\x00".to_vec(), class: 1, ttl: 0, rt: 15, rdata: b"\x00\x0a\x04$TTL\x00".to_vec() },
     ];
     let mut per_type_stats: BTreeMap<String, (u64, u64)> = BTreeMap::new();
